@@ -72,7 +72,7 @@ def record_pool(rnd, fam, keys, nsrc):
     for bits, ln in keys:
         for _ in range(rnd.randint(1, 3)):
             mx = rnd.choice([ln, ln, min(w, ln + 1), w, rnd.randint(ln, w), max(0, ln - 1), 255])
-            recs.append((fam, bits, ln, mx, rnd.choice(ASNS), rnd.randint(1, nsrc)))
+            recs.append((fam, bits, ln, mx, rnd.choice(ASNS), rnd.randint(0, nsrc)))      # source 0 = no socket (NULL)
     return recs
 
 
@@ -130,7 +130,7 @@ def gen_history(rnd, nops=40, nsrc=3, deep=False, fam=None, nq=30):
             if r in present:
                 present.remove(r)
         elif x < 0.83:
-            s = rnd.randint(1, nsrc)
+            s = rnd.randint(0, nsrc)
             lines.append("srcdel 0 %d" % s)
             present = [r for r in present if r[5] != s]
         elif x < 0.88:
